@@ -259,30 +259,32 @@ def normalize_url(
     if not has_protocol:
         url = "http://" + url
 
-    # Platform-specific magic
-    if platform_aware:
-        if is_facebook_url(url):
-            p = parse_facebook_url(url)
-
-            if p is not None:
-                url = p.url
-
-        elif is_youtube_url(url):
-            url = normalize_youtube_url(url)
-
-    # Parsing
+    # NOTE: an url that cannot be parsed (invalid brackets, invalid port) is
+    # returned as is
     try:
+        # Platform-specific magic
+        if platform_aware:
+            if is_facebook_url(url):
+                p = parse_facebook_url(url)
+
+                if p is not None:
+                    url = p.url
+
+            elif is_youtube_url(url):
+                url = normalize_youtube_url(url)
+
+        # Parsing
         splitted = urlsplit(url)
+
+        scheme, netloc, path, query, fragment = splitted
+        user, password, hostname, port = (
+            splitted.username,
+            splitted.password,
+            splitted.hostname,
+            splitted.port,
+        )
     except ValueError:
         return original_url_arg
-
-    scheme, netloc, path, query, fragment = splitted
-    user, password, hostname, port = (
-        splitted.username,
-        splitted.password,
-        splitted.hostname,
-        splitted.port,
-    )
 
     # Fixing common mistakes
     if fix_common_mistakes and query:
